@@ -253,6 +253,16 @@ def run(ctx):
         w0 = CW.init_world(wfname, backend, hashing=hashing, fresh=fresh, accounting=acct)
         lv = e2.bfs(ctx, me, "expand", [w0], depth, chunk=2, meta=meta, alphabet=alphabet_for(wfname))
         done.append(dict(meta, depth=depth, levels_completed=lv))
+    # from a project that was built by jobs the scheduler still remembers as completed (accounting): the states in which a finished job's
+    # record and the files can disagree are one step away
+    for wfname, backend, hashing, depth in ([("fork", "slurm", False, 2), ("chain", "slurm", True, 2)] if ctx.tier == "quick" else
+                                            [("fork", "slurm", False, 4), ("chain", "slurm", True, 4), ("shortcut", "slurm", False, 3), ("diamond", "slurm", False, 2)]):
+        names = CW.WORKFLOWS[wfname]().names()
+        prefix = [("gwf", ["run"])] + [(("env", st, n)) for n in names for st in ("start", "finish_ok")]
+        meta = dict(wf=wfname, backend=backend, accounting=True, hashing=hashing, fresh=False)
+        w0 = CW.build(wfname, backend, prefix, hashing=hashing, accounting=True)
+        lv = e2.bfs(ctx, me, "expand", [(w0, [list(a) for a in prefix])], depth, chunk=2, meta=meta, alphabet=alphabet_for(wfname))
+        done.append(dict(meta, init="built by completed jobs", depth=depth, levels_completed=lv))
     for wfname, backend, hashing, depth in ([("fork", "slurm", True, 2), ("chain", "lsf", False, 2)] if ctx.tier == "quick" else
                                             [("fork", "slurm", True, 4), ("chain", "lsf", False, 4), ("fork", "sge", True, 3), ("diamond", "slurm", False, 3)]):
         meta = dict(wf=wfname, backend=backend, accounting=True, hashing=hashing, fresh=False, mixed=True)
